@@ -58,7 +58,13 @@ def tie_case(ctx, rng, k, drv):
     b = tp.build(ctx, rng)
     b.lons = lonw / sc
     b.lats = latw / sc
-    b.quality[flagged] = 1 << 31
+    # unflagged lines carry any of the OTHER 29 quality bits (time / calibration / earth-location sub-flags, clock update,
+    # ...); a flagged line carries one of the format's three blanking bits
+    mask_bits = (31, 28, 27) if fam == "klm" else (31, 27, 26)
+    tb = sum(1 << x for x in mask_bits)
+    b.quality[:] = np.array([rng.getrandbits(32) & ~tb & 0xFFFFFFFF for _ in range(n)], dtype=np.uint32)
+    for i_ in np.nonzero(flagged)[0]:
+        b.quality[i_] |= np.uint32(1 << rng.choice(mask_bits))
     data = b.tobytes()
     r = filegen.reader_class(fmt)(tle_dir=filegen.tle_dir(ctx), tle_name="TLE_%(satname)s.txt",
                                   interpolate_coords=False, adjust_clock_drift=False)
